@@ -672,6 +672,8 @@ func querySig(q *carddav.AddressBookQuery, card vcard.Card, withRel bool) string
 
 func limitClass(limit, n int) string {
 	switch {
+	case limit <= -(1 << 31):
+		return "hugeneg"
 	case limit < 0:
 		return "neg"
 	case limit == 0:
@@ -680,6 +682,8 @@ func limitClass(limit, n int) string {
 		return "<n"
 	case limit == n:
 		return "=n"
+	case limit >= 1<<31:
+		return "huge"
 	}
 	return ">n"
 }
